@@ -99,6 +99,9 @@ def run(ctx):
     from ..persist import rule_P17
     k17 = rule_P17(ctx, only={'PhaseShift', 'NautilusBound'})      # periodic[i] <-> centers[i] survive the round trip
     ctx.require(k17 >= 4, 'P17 saw only %d stored values (floor 4)' % k17)
+    from ..effects import rule_G7
+    k7 = rule_G7(ctx, {'periodic'})      # the declared periodic set reaches the phase shift
+    ctx.require(k7 >= 2, 'G7 saw only %d hand-over sites for periodic (floor 2)' % k7)
     rule_M7(ctx)
     rule_M8c(ctx)
     n = rule_M6(ctx)
